@@ -8,6 +8,7 @@ import common as H
 from common import Case, Tree
 from nutree.diff import DiffClassification as DC
 from nutree.diff import diff_node_formatter
+from nutree.common import UniqueConstraintError
 
 GONE = (DC.REMOVED, DC.MOVED_TO)
 NEW = (DC.ADDED, DC.MOVED_HERE)
@@ -323,12 +324,14 @@ class Prop:
         built = self.build_pair(desc)
         if built is None:
             # description violates sibling uniqueness (possible after shrinking / out-of-domain labelling): trivial case
-            return Case(desc=desc, coq_input="(([], [], []) : case11)", impl_obs=[[], [], [], True], nontrivial=False, key=H.digest(desc))
+            return Case(desc=desc, coq_input="(([], [], []) : case11)", impl_obs=[[], [], [], True, True], nontrivial=False, key=H.digest(desc))
         U, t0, t1, base = built
         # node identities local to the case (allocation index minus the index at the start of the case): unary nat in Coq
         in0, in1 = coq_forest(t0._root, U, base), coq_forest(t1._root, U, base)
         before = (sx_forest(t0._root, U, base), sx_forest(t1._root, U, base))
         outside = not in_domain(t0._root._children or [], t1._root._children or [])
+        # the no-error theorem needs more: sibling uniqueness everywhere in t1 and collision-free hashes
+        may_not_raise = (not outside) and sib_unique_everywhere(t1) and hashes_injective(t0, t1)
         cfgs = desc.get("configs") or CONFIGS
         obs_runs = []
         coq_cfgs = []
@@ -353,7 +356,7 @@ class Prop:
                 errors += 1
                 obs_runs.append([-1, H.err_class(err)])
                 coq_cfgs.append(f"({H.coq_bool(ordered)}, {H.coq_bool(reduce)}, [])")
-                if not outside:
+                if may_not_raise or not isinstance(err, UniqueConstraintError):
                     fails.append(f"raised: {type(err).__name__} ordered={ordered} reduce={reduce}")
                 continue
             hints = [h - base for h in compute_hints(res, t0, t1)]
@@ -368,7 +371,7 @@ class Prop:
                 ambiguous = ambiguous or st["ambiguous"]
                 if f:
                     fails.append(f"{f} [ordered={ordered} reduce={reduce}]")
-        obs = [obs_runs, before[0], before[1], not outside]
+        obs = [obs_runs, before[0], before[1], not outside, may_not_raise]
         # the model is compared against the inputs as observed AFTER the calls
         obs[1], obs[2] = sx_in(t0._root, U, base), sx_in(t1._root, U, base)
         coq_input = f"(({in0}, {in1}, {H.coq_list(coq_cfgs)}) : case11)"
@@ -440,6 +443,26 @@ def in_domain(ch0, ch1):
             if eq != (c0._data_id == c1._data_id):
                 return False
             if eq and not in_domain(c0._children or [], c1._children or []):
+                return False
+    return True
+
+
+def sib_unique_everywhere(tree):
+    def ok(ch):
+        for i, a in enumerate(ch):
+            for b in ch[i + 1:]:
+                if a._data == b._data:
+                    return False
+        return all(ok(c._children or []) for c in ch)
+
+    return ok(tree._root._children or [])
+
+
+def hashes_injective(t0, t1):
+    nodes = B.all_nodes(t0._root) + B.all_nodes(t1._root)
+    for i, a in enumerate(nodes):
+        for b in nodes[i + 1:]:
+            if hash(a._data) == hash(b._data) and not (a._data == b._data):
                 return False
     return True
 
